@@ -24,12 +24,12 @@ PENDING_REASON = "check under construction in this session (engine designed in D
 
 CHECKS = {
  "C17": dict(engine="detsim", category="exploration", design_ref="4.5",
-   text="every run is a fresh worker interpreter whose PYTHONHASHSEED, wall clock / user / host (as read by fcp_cpp), directory listing order and operation history (parse, broken parse through the default Logger, verify with plug-in checks, layout on a kept encoder, reflection encode, earlier generations, fresh or reused tree objects) are chosen by the seeded simulator; every generate of every generator is compared file-by-file (stamp line removed) with the pristine baseline of the same schema; sampling over seeds, histories and a per-batch schema pool",
+   text="every run is a fresh worker interpreter whose PYTHONHASHSEED, TZ, process-wide wall clock (datetime/time), user and host name, directory listing order and operation history (parse, broken parse through the default Logger, verify with plug-in checks, layout on a kept encoder, reflection encode, earlier generations, fresh or reused tree objects) are chosen by the seeded simulator; every generate of every generator is compared file-by-file (stamp line removed) with the pristine baseline of the same schema; sampling over seeds, histories and a per-batch schema pool",
    note="generators are called through Generator.generate; the stamp line removed is exactly the documented one; trusts sha-256 comparison of normalised contents",
    technique="deterministic simulation with ambient-nondeterminism injection (hash seed, clock, uid/host, listing order, process history) and a pristine-run oracle",
    kind="deterministic simulation: fresh interpreters with simulator-owned hash seed / clock / user / host / listing order / history, pristine baseline oracle"),
  "C10": dict(engine="gensim", category="exploration", design_ref="4.2",
-   text="seeded command histories (gen via CLI or API with fresh or reused manager, touch, rm) against one scratch output directory with seeded pre-states; schemas carry zero or one injected check failure at a seeded position (root file or imported module); every gen is judged against an independent evaluation of every registered check: rejected => Err/diagnostic, plug-in never called, directory snapshot identical and no mutating file-system call under it (audit hook); accepted => exactly the returned files with exactly the returned contents; a share of runs injects ENOSPC/EIO/EACCES on the k-th mutating event; sampling, not proof",
+   text="seeded command histories (gen via CLI or API with fresh or reused manager, touch, rm) against one scratch output directory with seeded pre-states; schemas carry zero or one injected check failure at a seeded position (root file or imported module), including seeded checks in every verifier category registered by a simulator-owned third-party plug-in (fcp_simgen); every gen is judged against an independent evaluation of every registered check: rejected => Err/diagnostic, plug-in never called, directory snapshot identical and no mutating file-system call under it (audit hook); accepted => exactly the returned files with exactly the returned contents; a share of runs injects ENOSPC/EIO/EACCES on the k-th mutating event; sampling, not proof",
    note="the reference verdict calls the registered check functions directly (the checks themselves are C09's); raising checks / plug-ins are counted, not judged; trusts the audit hook and content snapshots as observers; the wall clock / user / host read by fcp_cpp are simulated",
    technique="deterministic simulation of command histories on a private disk with injected check failures and write faults (audit-hook observer, independent verdict oracle)",
    kind="deterministic simulation: command histories against a scratch output directory, injected check failures and write faults, snapshot + audit-hook observers"),
@@ -50,11 +50,11 @@ CHECKS = {
    kind="deterministic simulation: seeded histories of generate() calls on long-lived PackedEncoders, reference layout model"),
  "C19": dict(engine="schedsim", category="exploration", design_ref="4.6",
    text="seeded search over schemas x call histories of the real generated scheduler (compiled C) under simulated clocks, checked call by call against a reference automaton in unwrapped time plus history checks (no double send within P, no send without period, bounded liveness, cross-device isolation); sampling, not proof",
-   note="trusts gcc -O1/x86-64, the generated can_encode_msg_* as packing reference, and the 40-line reference automaton; fields limited to 8/16/32/64-bit integers; clock deltas < 2^32 - Pmax",
+   note="trusts the C compilers on x86-64 (gcc and clang, -O0/-O1/-O2 as swarm knobs), the generated can_encode_msg_* as packing reference, and the 40-line reference automaton (periods taken from the schema, not from the generated header); fields limited to 8/16/32/64-bit integers; clock deltas < 2^32 - Pmax",
    technique="deterministic simulation with clock fault injection (seeded call histories, reference automaton oracle)",
    kind="deterministic simulation: generated C scheduler compiled from the current tree, per-device simulated 32-bit clocks (stall/jump/wrap/skew), recorded bus, reference automaton"),
  "C16": dict(engine="wiresim", category="fault_enumeration", design_ref="4.4",
-   text="for seeded (schema, value) pairs every byte-boundary truncation of every valid message is delivered to the real decoder, plus every length prefix inflated to five sizes up to 2^32-1 and every absent optional's flag set; the decoder must raise, under a deterministic work clock (line events in serde.py) and an allocation limit; exhaustive in the truncation dimension per message, sampled over schemas and values",
+   text="for seeded (schema, value) pairs every byte-boundary truncation of every valid message is delivered to the real decoder, plus every length prefix inflated to five sizes up to 2^32-1, every absent optional's flag set and single flipped bits (all 32 bits of a prefix, a few anywhere) whenever the reference decoder says the result announces more than is there; the decoder must raise, under a deterministic work clock (line events in serde.py) and an allocation limit; exhaustive in the truncation dimension per message, sampled over schemas and values",
    note="trusts the 60-line reference codec (self-checked against tests/standardized vectors at start-up) to say which faulted strings are too short; messages are used only if the real decoder round-trips them when complete; enums excluded (serde has none)",
    technique="deterministic simulation of a faulty byte channel (truncation / corrupted length prefixes enumerated per message) with a step-count work clock",
    kind="deterministic simulation: sender -> fault-injecting byte channel -> fcp.serde.decode, reference codec as oracle, sys.settrace work clock"),
